@@ -4,6 +4,8 @@
 package knobs
 
 import (
+	"os"
+
 	"perkeep.org/pkg/blobserver"
 
 	"verif/harness"
@@ -12,7 +14,7 @@ import (
 // Apply sets the knobs of p. The returned function restores them and, when a
 // knob was actually lowered, records that in the outcome it is given.
 func Apply(p *harness.Plan) (done func(out *harness.Outcome)) {
-	if p.EnumBatch <= 0 || p.EnumBatch == 1000 {
+	if p.EnumBatch <= 0 || p.EnumBatch == 1000 || os.Getenv("VERIF_NOKNOBS") != "" { // (switch for comparison runs)
 		return func(*harness.Outcome) {}
 	}
 	old, ok := blobserver.VerifSetEnumerateAllBatch(p.EnumBatch)
